@@ -74,7 +74,7 @@ func (r *engRun) addTarget() *engTarget {
 		t.Helper = true
 	}
 	// distinct per target (no two equal integer constants in one file), in every pickle width class
-	t.K = []int{1, 20, 40, 240, 65520}[rng.Intn(5)] + id
+	t.K = []int{1, 20, 40, 240, 300, 556, 65520}[rng.Intn(7)] + id
 	var earlier []int
 	for e := range p.Targets {
 		earlier = append(earlier, e)
